@@ -21,6 +21,11 @@ Kernels (DESIGN.md section 4, C17; K4 and K5 were added while writing the harnes
       `subprocess` shows the order in which the instructions run, the interpreter / source the actor uses and what the
       preprocessor did.  Oracle: absolute (suite contents first, after in cleanup, the case's [conf] wins, nothing of a
       suite in the cases of its sub-suites), hence identical in all three ways.
+      K3:hier - hierarchies of 2-3 suite files (root + one sub-suite / two sibling sub-suites / a sub-suite with a
+      sub-suite of its own), every suite with contents of its OWN (mask over the six phases, actor and preprocessor: none /
+      its own / the same as the other suites), 0-2 cases per suite, the four ways of listing ([suites] / [cases] first,
+      lists reversed): `suite ROOT` must run every case with the contents of the suite that lists it and of no other
+      one - the absolute oracle - and exactly as `--suite ITS-OWN-SUITE CASE` does.
   K4  histories, whole program.  A suite of 2-3 REAL cases out of a catalogue of cases that change settings (env, cd,
       timeout, def, files, env -of act, stdin, actor / status; early, late, before a hard error / failure) and cases
       that observe; every case of the suite run must be observed (identifier; argv, cwd, environment, timeout, stdin,
@@ -622,14 +627,14 @@ def _k3h_obligations(tier: str) -> List[Ob]:
         obs.append(_k3h_ob('one-sub:exactly.suite', 'one-sub', 300, masks=(0, 63), pps=(0, 2), order=(0, 1),
                            exactly_names=True))
         for shape in ('siblings', 'chain'):
-            obs.append(_k3h_ob(shape + ':contents+listing', shape, 600, masks=few, order=(0, 1, 2, 3)))
+            obs.append(_k3h_ob(shape + ':contents+listing', shape, 600, masks=(0, 5, 58, 63), order=(0, 1, 2, 3)))
             obs.append(_k3h_ob(shape + ':actor+preprocessor', shape, 600, masks=dict(r=(63,), a=(1, 18), b=(37,)),
                                pps=(0, 1, 2), sa='free'))
-        obs.append(_k3h_ob('siblings:cases', 'siblings', 600, masks=dict(r=(0, 63), a=(18,), b=(0, 63)), n=(0, 1, 2)))
+            obs.append(_k3h_ob(shape + ':cases', shape, 600, masks=dict(r=(0, 63), a=(18,), b=(0, 63)), n=(0, 1, 2)))
     else:
         for lo in range(0, 64, 8):
             obs.append(_k3h_ob('one-sub:contents:r%d-%d' % (lo, lo + 7), 'one-sub', 3000,
-                               masks=dict(r=tuple(range(lo, lo + 8)), a=tuple(range(64))), sa='free', cm=(0, 21, 42, 63)))
+                               masks=dict(r=tuple(range(lo, lo + 8)), a=tuple(range(64))), sa='free', cm=(21, 42)))
         for o in (0, 1, 2, 3):
             obs.append(_k3h_ob('one-sub:cases+listing:%d' % o, 'one-sub', 3000, masks=(0, 5, 18, 40, 63), pps=(0, 2),
                                n=(0, 1, 2), order=(o,)))
@@ -952,6 +957,22 @@ def selftest(tier) -> int:
         if not L.k3_ok(L.k3_observe(lay, L.Contents('s', s, pp), L.Contents('c', c), L.Contents('b', b, bpp))):
             raise AssertionError('K3 oracle: %r' % ((lay, s, pp, c, b, bpp),))
         n += 1
+    # ---- K3:hier reference oracle vs the real program
+    for i, (shape, masks, pps, sa, ns, cm, order, en) in enumerate([
+            ('one-sub', (2, 16), (0, 0), False, (1, 1), 42, 0, False), ('one-sub', (63, 0), (0, 0), True, (2, 2), 21, 3, False),
+            ('one-sub', (1, 63), (2, 2), True, (1, 2), 42, 1, True), ('one-sub', (63, 63), (1, 0), False, (0, 1), 0, 2, False),
+            ('siblings', (63, 18, 37), (0, 0, 0), False, (1, 1, 1), 42, 0, False),
+            ('siblings', (0, 63, 63), (2, 1, 2), True, (2, 0, 2), 21, 3, True),
+            ('chain', (18, 63, 0), (0, 0, 0), False, (1, 1, 1), 42, 1, False),
+            ('chain', (63, 5, 40), (0, 2, 2), True, (1, 2, 1), 63, 2, True)]):
+        tags = L.hier_suite_tags(shape)
+        suites = {t: L.hier_contents(t, m, p, sa) for t, m, p in zip(tags, masks, pps)}
+        o = L.hier_observe(shape, suites, dict(zip(tags, ns)), cm, order, en)
+        if not o and sum(ns) or not L.k3_ok(o):
+            raise AssertionError('K3:hier oracle: %r' % ((shape, masks, pps, sa, ns, cm, order, en),))
+        if L.k3_ok(L.hier_observe(shape, suites, dict(zip(tags, ns)), cm, order, en, oracle_bug=True)) and sum(ns[1:]):
+            raise AssertionError('K3:hier seeded oracle error not noticed: %r' % ((shape, masks, pps, sa, ns, cm, order, en),))
+        n += 1
     # ---- K4 / K5: the reference cases end as the manual says when run alone
     for k in L.HISTORY_KINDS:
         if L.history_reference(k)[0] != L.HISTORY_IDENTIFIER[k]:
@@ -976,6 +997,7 @@ ASSUMPTIONS = [
     'work-around of harness/_C16_lib',
     'K2: the stub instructions / actor use only the public base classes; they stand for every instruction an instruction '
     'set could hold - they may do more than the instructions of the default set do (e.g. overwrite a predefined symbol)',
+    'K3:hier: once every selector is concrete the real main program runs with CrossHair\'s tracing suspended (ob.untraced)',
     'K3, K4, K5: all symbolic variables are selectors over finite catalogues: the verdict is the exhaustion certificate of '
     'the path tree; K1: element counts per phase (0..2); K2: the timeouts are unbounded integers',
     'the outcome of a case = its exit identifier + everything it hands to the OS when starting processes (argv, cwd, '
@@ -987,6 +1009,7 @@ OUTSIDE = [
     'leakage through channels the executor does not hand to instructions: os.environ of the Exactly process itself, '
     'chdir by a [conf] instruction, files outside the sandbox (home directory)',
     'whether a sandbox directory is a new one (a directory that is removed and created again carries nothing over)',
-    'suites deeper than one level of sub-suites; more than 3 cases per suite run; contents other than the catalogues',
+    'suites deeper than two levels of sub-suites, more than two sub-suites; more than 3 cases per suite run; contents '
+    'other than the catalogues',
     'the reporters (C16), the presentation of file names, timing',
 ]
